@@ -396,8 +396,14 @@ func methods(p *pkgInfo, prefix string) {
 					if !ok {
 						return true
 					}
-					if id, ok := at.Elt.(*ast.Ident); !ok || id.Name != "FieldDescription" {
+					id, ok := at.Elt.(*ast.Ident)
+					if !ok || (id.Name != "FieldDescription" && id.Name != "Field") {
 						return true
+					}
+					if id.Name == "Field" && len(cl.Elts) != 1 {
+						// a hand-built []Field is only understood as "one field spanning the whole register"
+						untranslated = append(untranslated, prefix+"."+rid.Name+".Fields: hand-built []Field with more than one element")
+						return false
 					}
 					for _, el := range cl.Elts {
 						ecl, ok := el.(*ast.CompositeLit)
@@ -455,6 +461,29 @@ func methods(p *pkgInfo, prefix string) {
 						panic(r)
 					}
 				}()
+				// `x := e; ...; return T{Field: expr, ...}`: one accessor per field
+				if n := len(fd.Body.List); n > 0 {
+					if ret, ok := fd.Body.List[n-1].(*ast.ReturnStmt); ok && len(ret.Results) == 1 {
+						if cl, ok := ret.Results[0].(*ast.CompositeLit); ok {
+							for _, st := range fd.Body.List[:n-1] {
+								as, ok := st.(*ast.AssignStmt)
+								if !ok || as.Tok != token.DEFINE || len(as.Lhs) != 1 || len(as.Rhs) != 1 {
+									t.fail(st, "statement before a composite return must be `x := e`")
+								}
+								t.locals[as.Lhs[0].(*ast.Ident).Name] = t.expr(as.Rhs[0])
+							}
+							for _, el := range cl.Elts {
+								kv, ok := el.(*ast.KeyValueExpr)
+								if !ok {
+									t.fail(el, "positional composite literal")
+								}
+								res := t.expr(kv.Value)
+								accessors = append(accessors, accessor{name + "." + kv.Key.(*ast.Ident).Name, w, value(res), src(p, kv)})
+							}
+							return
+						}
+					}
+				}
 				res := t.stmts(fd.Body.List)
 				accessors = append(accessors, accessor{name, w, value(res), src(p, fd)})
 			}()
